@@ -36,6 +36,7 @@ RESUME_PATH = [
     ("NestedSampler", "initialise", "resume"),
     ("NestedSampler", "nested_sampling_loop", "resume"),
     ("NestedSampler", "check_resume", "resume"),
+    ("NestedSampler", "update_state", "resume"),      # called once before the first new iteration when iteration > 0
     ("ImportanceNestedSampler", "__setstate__", "resume"),
     ("ImportanceNestedSampler", "resume_from_pickled_sampler", "resume"),
     ("ImportanceNestedSampler", "nested_sampling_loop", "resume"),
@@ -490,6 +491,15 @@ def extract(repo):
                     hit = True
         resets.append((cls, hit))
 
+    # does resume_from_pickled_sampler itself re-arm the sampling start time?
+    fn = infos["BaseNestedSampler"].methods.get("resume_from_pickled_sampler")
+    rearm = False
+    for n in ast.walk(fn):
+        for t in _targets(n):
+            ch = _attr_chain(t)
+            if ch and ch[0] in SELF_NAMES and ch[1] == ["sampling_start_time"]:
+                rearm = True
+
     # every class of the package that customises pickling
     custom = []
     for p in sorted((repo / "nessai").rglob("*.py")):
@@ -504,7 +514,7 @@ def extract(repo):
                                                                          "__getnewargs__", "__getnewargs_ex__"):
                         if n.name not in custom:
                             custom.append(n.name)
-    return dict(tables=tables, sites=sites, calls=calls, augs=augs, unbound=unbound, resets=resets, custom=custom,
+    return dict(tables=tables, sites=sites, calls=calls, augs=augs, unbound=unbound, resets=resets, rearm=rearm, custom=custom,
                 attr_class=sorted((f"{k[0]}.{k[1]}", v) for k, v in attr_class.items()))
 
 
@@ -563,6 +573,9 @@ def render(ex):
     out.append("/-- does `nested_sampling_loop` re-arm `sampling_start_time` before iterating? -/")
     out.append("def loopResetsStart : List (String × Bool) := "
                + _l(ex["resets"], lambda c: f"({_s(c[0])}, {'true' if c[1] else 'false'})", per_line=1))
+    out.append("")
+    out.append("/-- does `BaseNestedSampler.resume_from_pickled_sampler` assign `sampling_start_time`? -/")
+    out.append("def resumeRearmsStart : Bool := " + ("true" if ex["rearm"] else "false"))
     out.append("")
     out.append("/-- every class under nessai/ that defines `__getstate__`/`__setstate__`/`__reduce__`… -/")
     out.append("def customPicklers : List String := " + _l(ex["custom"]))
